@@ -746,4 +746,39 @@ void h_compare_str()
   delete[] P.foreign; delete[] Q.foreign;
 }
 
+
+// -------------------------------------------------------------- replace(char needle, char replacement)  (loop contract)
+// The scan is C-string based (stops at the first NUL).  For every position k: the byte is either
+// unchanged or (it was the needle and is now) the replacement; length, other handles, ledger as usual.
+char g_orig; char g_needle, g_repl;
+bool post_replace(const String* a)
+{
+  if(!wf_String(a)) return false;
+  const String::Data* d = a->data;
+  if(d->len != g_exp_len || d->str[d->len] != 0) return false;
+  if(g_exp_has && g_k < d->len && NV_OFFSET(d->str) + g_k == g_woff &&
+     !(d->str[g_k] == g_orig || (g_orig == g_needle && d->str[g_k] == g_repl))) return false;
+  return post_old_block(a) && post_other_handle();
+}
+void h_replace_char()
+{
+  NV_STRING_STATICS();
+  NV_PRE_INPUTS(P);
+  NV_INPUT(char, needle); NV_INPUT(char, repl);
+  NV_GHOST();
+  String a, b;
+  build(a, b, P);
+  usize old = a.data->len;
+  g_exp_len = old; g_needle = needle; g_repl = repl; g_fk = k;
+  if(k < old) { g_exp_has = true; g_orig = pin(a, k, vbyte); }
+  watch_b(k, vbyte);
+  NV_PRE(wf_String(&a));
+  a.replace(needle, repl);
+  NV_POST("replace(char, char): bytes unchanged or needle -> replacement; sharers unaffected", post_replace(&a));
+  if(g_blk0 && g_ref0 > 1) { NV_REACH("replace_char.unshare"); }
+  if(g_blk0 && g_ref0 == 1) { NV_REACH("replace_char.inplace"); }
+  teardown(a, b, P);
+  delete[] P.foreign;
+}
+
 } // extern "C"
